@@ -323,6 +323,41 @@ def explore(impl, h, cfg, cname, depth, max_dev, vb: VB, roots_len: int = 5):
     return len(seen), trans, maxd, sample
 
 
+LONG_TIMERS = [(True, 5, 7), (True, 7, 3), (True, 11, 4), (True, 9, 0)]
+LONG_PROGS = ["nop", "imr_mti", "imr_mti@kbstale", "imr_mti@kboff", "imr_toggle", "imr_word", "isr_clear", "wait", "halt", "zflag", "clr_halt"]
+
+
+def long_combos(impl, thorough):
+    progs = LONG_PROGS if impl == "rust" else [p for p in LONG_PROGS if "@" not in p]
+    return [(p, hn, i, t) for p in progs for hn in ("reti", "clr") for i in ((0x82, 0x83) if p.startswith("imr_mti") else (0x8F, 0x81, 0x82))
+            for t in (LONG_TIMERS if thorough or impl == "rust" else LONG_TIMERS[:2])]
+
+
+def _long_shard(args):
+    """Step-only runs much longer than the BFS depth, with timer periods longer than a handler: a request that became pending
+    while masked has to wait for the program to unmask it (no new expiry comes to its rescue), several handlers complete, ..."""
+    impl, combos, nsteps = args
+    h = rb.harness() if impl == "rust" else None
+    vb = VB()
+    tr = 0
+    for (p, hn, imr, timer) in combos:
+        cname = f"{p}|{hn}|imr={imr:02x}|t={int(timer[0])},{timer[1]},{timer[2]}"
+        cfg = make_cfg(p, hn, imr, timer)
+        bnds = boundaries(cfg)
+        path = (("step",),) * nsteps
+        pre = (M.run_py(cfg, [], obs_each=False) if impl == "python" else M.run_rs(h, cfg, [], obs_each=False))[-1]
+        seq = M.run_py(cfg, path) if impl == "python" else M.run_rs(h, cfg, path)
+        prep(impl, [pre] + seq)
+        mon = (0, 0, (), 0)
+        for i, post in enumerate(seq):
+            if "regs" not in post:
+                break
+            mon = monitor(impl, cfg, cname, path[: i + 1], pre, path[i], post, mon, vb, bnds)
+            pre = post
+            tr += 1
+    return {"states": 0, "transitions": tr, "depth": nsteps, "vb": vb, "samples": []}
+
+
 def make_cfg(p, hname, imr, timer, kol=0xFF):
     p, _, var = p.partition("@")
     cfg = M.default_cfg(bytes.fromhex(PROGRAMS[p]), bytes.fromhex(HANDLERS[hname]), imr=imr, timer=timer, kb_press=1, kol=kol)
@@ -399,6 +434,11 @@ def run(ctx) -> None:
     jobs = [("rust", c, rs_depth, rs_dev) for c in chunks(combos_for("rust", ctx.thorough, ctx.seed), n * 2)]
     jobs += [("python", c, py_depth, py_dev) for c in chunks(combos_for("python", ctx.thorough, ctx.seed), n * 4)]
     res = pmap(_shard, jobs)
+    nlong = 80 if ctx.thorough else 40
+    resL = pmap(_long_shard, [(impl, c, nlong) for impl in ("rust", "python") for c in chunks(long_combos(impl, ctx.thorough), n // 2)])
+    ctx.coverage["long_runs"] = {"configs": sum(len(long_combos(i, ctx.thorough)) for i in ("rust", "python")), "steps_each": nlong,
+                                 "monitored_transitions": sum(r["transitions"] for r in resL)}
+    res = res + resL
     for r in res:
         ctx.merge_bucket(r["vb"])
     ctx.level = "model_checking"
